@@ -897,14 +897,24 @@ fn dlt_message_intern<'a>(
             ParsedMessage::FilteredOut(payload_length as usize),
         ));
     }
-    let (i, payload) = if header.endianness == Endianness::Big {
-        dlt_payload::<BigEndian>(after_headers, verbose, payload_length, arg_count, msg_type)?
+    // the payload is confined to the length declared in the header
+    let (after_message, payload_bytes) = take(payload_length)(after_headers)?;
+    let payload_res = if header.endianness == Endianness::Big {
+        dlt_payload::<BigEndian>(payload_bytes, verbose, payload_length, arg_count, msg_type)
     } else {
-        dlt_payload::<LittleEndian>(after_headers, verbose, payload_length, arg_count, msg_type)?
+        dlt_payload::<LittleEndian>(payload_bytes, verbose, payload_length, arg_count, msg_type)
     };
-    dbg_parsed("payload", after_headers, i, &payload);
+    let (_, payload) = match payload_res {
+        Err(nom::Err::Incomplete(_)) => {
+            return Err(Error(DltParseError::ParsingHickup(
+                "Payload exceeds the declared message length".to_string(),
+            )))
+        }
+        other => other?,
+    };
+    dbg_parsed("payload", after_headers, after_message, &payload);
     Ok((
-        i,
+        after_message,
         ParsedMessage::Item(Message {
             storage_header: storage_header_shifted.map(|shs| shs.0),
             header,
